@@ -130,6 +130,7 @@ class Operator:
         self.indexers: Any = None
         self.tearing_down = False
         self.leftovers_cancelled = False
+        self.last_credentials: Any = None
         self.t_process_gone: Optional[float] = None
 
     # ------------------------------------------------------------------
@@ -444,10 +445,16 @@ def register_handlers(op: Operator, specs: list[dict[str, Any]]) -> None:
 
     # The login handler is always there: it is the network seam.
     async def login(**_: Any) -> Any:
+        if op.spec.get('login_reuses_revoked') and op.sessions and op.sessions[-1].revoked:
+            # a broken login handler that hands out the very same (already invalidated) credentials again
+            run.sim.log('login', op.actor, op.sessions[-1].token + '(again)')
+            run.logins.append((run.sim.now, op.actor, op.sessions[-1].token))
+            return op.last_credentials
         session = op.new_session()
         run.sim.log('login', op.actor, session.token)
         run.logins.append((run.sim.now, op.actor, session.token))
-        return kopf.AiohttpSession(server='http://sim', aiohttp_session=session)  # type: ignore[arg-type]
+        op.last_credentials = kopf.AiohttpSession(server='http://sim', aiohttp_session=session)  # type: ignore[arg-type]
+        return op.last_credentials
     login.__name__ = login.__qualname__ = 'sim_login'
     kopf.on.login(registry=registry, id='sim_login')(login)
 
